@@ -220,6 +220,40 @@ static void change_count_case(uint64_t idx, const vh_cipher *c, vh_rng *r)
     }
 }
 
+/* model mode, Mantis only: mode values other than the two named constants.  What they mean is the library's business; what
+   C07 says is that the parallel object and the single-block functions agree - in whether the key call succeeds and, if it does,
+   on every block (whole batches and left-overs), also after swap_modes */
+static void odd_mode_case(uint64_t idx, vh_rng *r)
+{
+    static const int MODES[] = {2, 3, -1, 255, 256, 257, 0x10001, -255, 0x7FFFFFFF, (int)0x80000000u, 0x101};
+    const vh_cipher *c = &vh_ciphers[CIPH_MANTIS]; int mode = MODES[(idx / 40) % 11], be, nbe = maxbe[c->id] + 1; char pfx[160];
+    uint8_t key[16], in[19 * 8], tw[19 * 8], o1[19 * 8], o2[19 * 8]; unsigned rounds = 5 + vh_below(r, 4), b;
+    vh_rand_bytes(r, key, 16); vh_rand_bytes(r, in, sizeof(in)); vh_rand_bytes(r, tw, sizeof(tw));
+    for (be = 0; be < nbe; ++be) {
+        vh_handle h; MantisKey_t ks; int r1, r2, swap = (int)vh_below(r, 2); const char *bad = NULL;
+        memset(&h, 0, sizeof(h)); memset(&ks, 0, sizeof(ks)); vh_set_cap(be);
+        snprintf(pfx, sizeof(pfx), "%s:mantis-parallel:%s:unlisted-mode-value", prop, vh_backend_names[be]); vh_set_crash_key(pfx);
+        vh_call_begin("set_key with an unlisted mode value");
+        c->par_init(&h); r1 = c->par_set_key(&h, key, 16, rounds, mode); r2 = mantis_set_key(&ks, key, 16, rounds, mode);
+        if (r1 && r2) {
+            if (swap) { c->par_swap(&h); mantis_swap_modes(&ks); }
+            c->par_encrypt(o1, in, tw, sizeof(in), &h);
+            for (b = 0; b < 19; ++b) mantis_ecb_crypt_tweaked(o2 + 8 * b, in + 8 * b, tw + 8 * b, &ks);
+        }
+        c->par_cleanup(&h);
+        vh_call_end();
+        VH_COUNT("unlisted_mode_value_cases", 1);
+        if (!!r1 != !!r2) bad = "parallel-and-single-block-key-functions-disagree-on-acceptance";
+        else if (r1 && memcmp(o1, o2, sizeof(in))) bad = "differs-from-single-block-functions";
+        if (bad) {
+            char key_[240], d[220];
+            snprintf(key_, sizeof(key_), "%s:mantis-parallel:%s:unlisted-mode-value:%s", prop, vh_backend_names[be], bad);
+            snprintf(d, sizeof(d), "{\"mode_value\":%d,\"rounds\":%u,\"swap\":%d,\"rets\":[%d,%d],\"driver\":\"drv_par\",\"mode\":\"model\",\"case\":%llu}", mode, rounds, swap, r1, r2, (unsigned long long)idx);
+            vh_violation(key_, d, d);
+        }
+    }
+}
+
 static void one_case(uint64_t idx)
 {
     vh_rng r;
@@ -238,6 +272,7 @@ static void one_case(uint64_t idx)
     }
     if (!strcmp(vh_arg_mode, "twin") && idx % 40 == 9) { ragged_big(idx, c, &r); return; }
     if (!strcmp(vh_arg_mode, "xbe") && idx % 40 == 23) { change_count_case(idx, c, &r); return; }
+    if (!strcmp(vh_arg_mode, "model") && idx % 40 == 29 && idx >= nstruct) { odd_mode_case(idx, &r); return; }
     if (!strcmp(vh_arg_mode, "model") && idx < nstruct) { gen_structured(&H, c, idx / CIPH_N, &r); VH_COUNT("structured_cases", 1); }
     else phist_gen(&H, c, &r, g);
     VH_COUNT("histories", 1); VH_COUNT("ops", H.n);
